@@ -1,7 +1,9 @@
 //! Class-file infrastructure shared by the class-file properties (C01, C02, C07, C13–C17):
-//! an independent strict parser/writer of the JVMS class-file format, an assembler that builds
-//! class files from abstract descriptions, and the conversion of duke's tree into comparable
-//! "facts".  See README.md in this directory.
+//! an independent strict parser/writer of the JVMS class-file format (`raw`), a semantic,
+//! pool-independent description of a class in normal form with constructors from the independent
+//! parser and from duke's tree (`facts`), an assembler that builds class files from abstract
+//! descriptions under the knobs of property C01 (`asm`), generators (`gen`), the vendored corpus
+//! (`corpus`) and a field map for structure-aware mutation (`layout`).  See README.md in this directory.
 pub mod jstr;
 pub mod opcodes;
 pub mod raw;
@@ -10,3 +12,6 @@ pub mod dbg;
 pub mod facts;
 pub mod facts_raw;
 pub mod facts_duke;
+pub mod asm;
+pub mod gen;
+pub mod layout;
